@@ -5,7 +5,7 @@ import itertools
 import random
 
 from .lib import Out, classify_mismatch, keystream, now, run_main
-from .topo import (CONNECTORS, F_NO_EOF_WAIT, F_SLOW_READER, F_TINY_RCVBUF, HLEN, LISTENERS, Chain, OriginBank, parse_tunnel_header, tunnel_header)
+from .topo import (CONNECTORS, F_STALL_RST, F_NO_EOF_WAIT, F_SLOW_READER, F_TINY_RCVBUF, HLEN, LISTENERS, Chain, OriginBank, parse_tunnel_header, tunnel_header)
 
 TLS_LISTENERS = {"https", "sockstls"}
 
@@ -169,6 +169,37 @@ def size_class(n):
     return "0" if n == 0 else "1" if n <= 2 else "S" if n <= 70000 else "M" if n <= (1 << 20) else "L"
 
 
+async def victim(chain, seed, uid, lk, ck, direction):
+    """a tunnel that dies abnormally while megabytes are in flight inside the proxy (whatever the proxy holds for it - pipes,
+    buffers - must not surface in any later tunnel)"""
+    conn = None
+    try:
+        conn, ok, _ = await chain.open_tunnel(lk, ck, "ipv4", early=b"", bank=1, split=None, rcvbuf=65536 if direction == "s2c" else None)
+        if not ok:
+            return False
+        if direction == "c2s":
+            # the origin stops reading after the header and resets 0.4 s later; the client keeps pushing
+            conn.write(tunnel_header(uid, 4 << 20, 0, F_STALL_RST) + b"\xa5" * (3 << 20))
+            try:
+                await asyncio.wait_for(conn.drain(), 2.0)
+            except Exception:
+                pass
+            await asyncio.sleep(0.3)
+            conn.abort()
+        else:
+            # the origin blasts 4 MiB at a client that never reads and resets
+            conn.write(tunnel_header(uid, HLEN, 4 << 20, 0))
+            await conn.drain()
+            await asyncio.sleep(0.4)
+            conn.abort()
+        return True
+    except Exception:
+        return False
+    finally:
+        if conn is not None:
+            conn.close()
+
+
 async def main(args):
     out = Out("C01", "c01", "every listener kind x connector kind x io mode (splice on/off, several bufferSize) with drawn shapes (payload sizes 0..multi-MB per direction, who speaks first, early data glued to the handshake, write sizes, pauses, slow readers, target as IPv4/domain/IPv6, segmented handshakes), 1..32 tunnels concurrently; both byte streams compared with position-keyed keystreams. distinct = distinct (listener, connector, io mode, shape class) with payload in both directions")
     rng = random.Random(args.seed)
@@ -227,6 +258,27 @@ async def main(args):
                     sh["c2s"] = min(sh["c2s"], 70000)
                     sh["s2c"] = min(sh["s2c"], 70000)
                     sh["early"] = min(sh["early"], sh["c2s"])
+                    uid += 1
+                    batch.append((uid, lk, ck, sh))
+                await asyncio.gather(*[one_tunnel(out, chain, bank, args.seed, u, lk, ck, sh, live) for (u, lk, ck, sh) in batch])
+            # tunnels that die with data in flight, then fresh tunnels: nothing of a dead tunnel may surface in a later one
+            for rnd in range(6 if args.thorough else 3):
+                lk, ck = [("http", "direct"), ("socks5", "s5"), ("reverse", "h")][rnd % 3] if rnd < 3 else rng.choice(pairings)
+                if lk in TLS_LISTENERS or lk == "quic":
+                    lk = "http"
+                vs = []
+                for d in ("c2s", "s2c", "c2s", "s2c", "c2s", "s2c"):
+                    uid += 1
+                    vs.append(victim(chain, args.seed, uid, lk, ck, d))
+                died = sum(1 for x in await asyncio.gather(*vs) if x)
+                out.count("tunnels_killed_with_data_in_flight", died)
+                await asyncio.sleep(0.2)
+                batch = []
+                for sh in shapes_for(rng, io_name, io["bufferSize"], False, 8):
+                    sh["c2s"] = min(max(sh["c2s"], 3000), 70000)
+                    sh["s2c"] = min(max(sh["s2c"], 3000), 70000)
+                    sh["early"] = min(sh["early"], sh["c2s"])
+                    sh["cls"] = "after-aborted-tunnels"
                     uid += 1
                     batch.append((uid, lk, ck, sh))
                 await asyncio.gather(*[one_tunnel(out, chain, bank, args.seed, u, lk, ck, sh, live) for (u, lk, ck, sh) in batch])
